@@ -47,6 +47,8 @@ def amount_cell(rnd, x, conv):
     neg = x < 0
     a = abs(x)
     s = '%.2f' % a
+    if round(a, 2) != a:
+        s = ('%.6f' % a).rstrip('0')
     ip, fr = s.split('.')
     style = rnd.randint(0, 6)
     if rnd.random() < .2 and fr.endswith('0'):
@@ -136,7 +138,10 @@ def gen_rows(rnd, lay, conv, n, short_ok=True):
             dt = rnd.choice([datetime(2024, 2, 29), datetime(2024, 2, 15), datetime(2024, 12, 31), datetime(2025, 1, 1)])
         desc = rnd.choice(DESCS)
         x = round(rnd.choice([1, -1]) * rnd.choice([0.01, 5, 12.5, 999.99, 1234.56, 1234567.8, 1000, 0.1, 20.0, 1.5, 2.25, 1500, 2250, 12500, 1.0]), 2)
+        if rnd.random() < .06:
+            x = rnd.choice([1, -1]) * rnd.choice([1.239, 0.004, 1234.5678, 0.0049, 9.705])       # the number written in the cell, however many decimals it has
         cells, fields = [''] * ncols, {}
+        rawrow = False
         for j, r in enumerate(roles):
             if r == 'date':
                 if kind != 'baddate':
@@ -154,6 +159,11 @@ def gen_rows(rnd, lay, conv, n, short_ok=True):
                     cells[j] = rnd.choice(bad)
             elif r == 'description':
                 cells[j] = desc if kind != 'emptydesc' else rnd.choice(['', '   ', '\t'])
+                if kind == 'ok' and rnd.random() < .05:
+                    # written by a bank, not by a csv library: a blank after the delimiter, then a quote mark that belongs to the text
+                    desc = rnd.choice(['"BIG" BURGER', "'N' OUT", '"UNCLOSED DINER', '12" PIZZA'])
+                    cells[j] = ' ' + desc
+                    rawrow = True
             elif r == 'amount':
                 if kind == 'badamt':
                     cells[j] = rnd.choice(['abc', '', '--', '12x', '$', 'N/A', '1.2.3' if conv == '.' else 'x,y', '()', ' '])
@@ -196,7 +206,7 @@ def gen_rows(rnd, lay, conv, n, short_ok=True):
             row = row + ['extra'] * rnd.randint(1, 3)
         elif kind == 'blank':
             row = []
-        out.append({'kind': kind if not (kind == 'emptydesc' and exp) else 'ok', 'cells': row, 'exp': exp})
+        out.append({'kind': kind if not (kind == 'emptydesc' and exp) else 'ok', 'cells': row, 'exp': exp, 'raw': rawrow})
     return out
 
 
@@ -208,6 +218,8 @@ def render_csv(rows, header, ncols, dl, lineterm):
     for r in rows:
         if r['cells'] == []:
             buf.write(lineterm)
+        elif r.get('raw') and not any((dl in c) or ('\n' in c) or ('\r' in c) or c.startswith('"') for c in r['cells']):
+            buf.write(dl.join(r['cells']) + lineterm)          # unquoted, exactly as the cells read
         else:
             w.writerow(r['cells'])
     return buf.getvalue()
